@@ -569,15 +569,35 @@ func c06Recover(r *Run, m *ServerModel, rule string) {
 		"first statement defers a function that calls recover() and sets the reply to newErr(EFAULT)",
 		fmt.Sprintf("panic barrier incomplete: deferred literal=%v first=%v recover()=%v reply=EFAULT=%v — a backend panic would kill the process or leave the request unanswered", okDefer, first, okRecover, okAssign))
 	// Every exit yields a message: the non-handler branch returns ENOSYS.
+	// (written as an assignment to the named result or as the operand of a return of handle
+	// itself; a return inside a nested literal is not an exit of handle)
 	okElse := false
-	ast.Inspect(fi.Decl.Body, func(n ast.Node) bool {
-		if as, ok := n.(*ast.AssignStmt); ok && len(as.Lhs) == 1 && r.L.str(as.Lhs[0]) == resName {
-			if v, ok := errnoExpr(info, as.Rhs[0]); ok && v == 38 {
-				okElse = true
+	var scan func(n ast.Node, nested bool)
+	scan = func(root ast.Node, nested bool) {
+		ast.Inspect(root, func(n ast.Node) bool {
+			switch v := n.(type) {
+			case *ast.FuncLit:
+				if !nested {
+					scan(v.Body, true)
+					return false
+				}
+			case *ast.AssignStmt:
+				if len(v.Lhs) == 1 && resName != "" && r.L.str(v.Lhs[0]) == resName {
+					if val, ok := errnoExpr(info, v.Rhs[0]); ok && val == 38 {
+						okElse = true
+					}
+				}
+			case *ast.ReturnStmt:
+				if !nested && len(v.Results) == 1 {
+					if val, ok := errnoExpr(info, v.Results[0]); ok && val == 38 {
+						okElse = true
+					}
+				}
 			}
-		}
-		return true
-	})
+			return true
+		})
+	}
+	scan(fi.Decl.Body, false)
 	r.check(okElse, rule, "connState.handle: unhandled message type answered", fi.Decl.Pos(), "ENOSYS for a message without a handler", "a message type without a handler is not answered with ENOSYS")
 }
 
